@@ -41,7 +41,7 @@ def hosts():
 def ctor_strategy():
     return st.one_of(
         gen.url_string(txt(), hosts=hosts()).map(lambda s: ["str", s]),
-        st.sampled_from(["http://h", "http://h/", "http://H:80/", "//:77", "//u@:0", "http://h/a b", "http://h/a%20b", "http://[::1]/", "/a/b", "a", "", "http://h/?k=v", "http://a b/", "http://h/a/%E2%82", "http://h/b/%AC", "http://h/%", "http://h/41?%#%"]).map(lambda s: ["str", s]),
+        st.sampled_from(["http://h", "http://h/", "http://H:80/", "//:77", "//u@:0", "//:/x", "foo://@/q", "foo://u:p@/p?k=v", "//@:?#", "http://h/a b", "http://h/a%20b", "http://[::1]/", "/a/b", "a", "", "http://h/?k=v", "http://a b/", "http://h/a/%E2%82", "http://h/b/%AC", "http://h/%", "http://h/41?%#%"]).map(lambda s: ["str", s]),
         gen.url_string(txt(), hosts=hosts()).map(lambda s: ["enc", s]),
         st.sampled_from(["http://h", "http://h/a b", "//:77", "http://H/", "http://h/", "http://h:80/", "https://u@h:443/", "http://h?a=1", "http://h/?a=1", "http://EXAMPLE.com:080/p", "http://h:99999/", "http://u:p@h:http/p", "http://h:80:80/", "//[::1]:x", "http://h:080/",
                          "http://h/..profile", "http://h/a/...rc"]).map(lambda s: ["enc", s]),
@@ -73,6 +73,49 @@ SELF = {"with_host": lambda u: u.with_host(u.host), "with_host_raw": lambda u: u
         "with_name": lambda u: u.with_name(u.name), "with_suffix": lambda u: u.with_suffix(u.suffix), "with_scheme": lambda u: u.with_scheme(u.scheme),
         "with_port": lambda u: u.with_port(u.explicit_port), "with_port_eff": lambda u: u.with_port(u.port), "join_self": lambda u: u.join(u),
         "update_query": lambda u: u.update_query(u.query), "extend_query": lambda u: u.extend_query(u.query), "truediv_name": lambda u: u.parent / u.name}
+
+
+def make_alias_arg(form, pairs):
+    """a caller-owned mutable query argument and a function that changes it afterwards"""
+    import multidict
+    pairs = [tuple(p) for p in pairs]
+    if form == "dict":
+        arg = dict(pairs)
+        return arg, arg
+    if form == "list":
+        arg = list(pairs)
+        return arg, arg
+    md = multidict.MultiDict(pairs)
+    if form == "multidict":
+        return md, md
+    if form == "cimultidict":
+        md = multidict.CIMultiDict(pairs)
+        return md, md
+    if form == "proxy":
+        return multidict.MultiDictProxy(md), md
+    if form == "dict-listvalue":
+        arg = {k: [v, v] for k, v in pairs}
+        return arg, arg
+    raise AssertionError(form)
+
+
+def mutate_alias(owner, how):
+    if isinstance(owner, list):
+        if how == "clear":
+            owner.clear()
+        else:
+            owner.append(("zz", "9"))
+        return
+    vals = list(owner.values()) if isinstance(owner, dict) else []
+    if how == "clear":
+        owner.clear()
+    elif vals and isinstance(vals[0], list):
+        vals[0].append("9")
+        owner["zz"] = ["9"]
+    else:
+        owner["zz"] = "9"
+        for k in list(owner.keys())[:1]:
+            owner[k] = "changed"
 
 
 def rebuild(Y, parts):
@@ -213,6 +256,21 @@ class State:
             return
         if not self.pool:
             return
+        if kind == "alias":
+            # the caller keeps (and later changes) the mutable object it passed in: the URL made from it must not follow
+            u = self.pool[s[1] % len(self.pool)][0]
+            arg, owner = make_alias_arg(s[3], s[4])
+            before = json.dumps(jsonable(list(owner.items()) if hasattr(owner, "items") else list(owner)), sort_keys=True)
+            if s[2] == "build":
+                out, rb = result_outcome(B, lambda: B.URL.build(scheme="http", host="h.example", path="/p", query=arg))
+            else:
+                out, rb = result_outcome(B, lambda: getattr(u, s[2])(arg))
+            after = json.dumps(jsonable(list(owner.items()) if hasattr(owner, "items") else list(owner)), sort_keys=True)
+            self.ctx.check(before == after, "an argument passed to a modifier was mutated", observed=after, expected=before, entry=s[2])
+            if rb is not None:
+                self._add(rb, "mod")  # snapshot taken before the caller changes its object
+                mutate_alias(owner, s[5])
+            return
         idx = [s[1] % len(self.pool)] + ([s[2] % len(self.pool)] if kind in ("cmp", "join") else [])
         ops = [self.pool[i][0] for i in idx]
         route = self.pool[idx[0]][2]
@@ -329,11 +387,23 @@ class Machine(RuleBasedStateMachine):
     def numeric_query(self, i, name, val, key):
         self.s.step(["mod", i, [name, {key: val}]])
 
+    @rule(i=st.integers(0, 7), name=st.sampled_from(["with_query", "update_query", "extend_query"]), val=st.sampled_from([1, 1.0, 0, -0.0, 10 ** 20, 1e20, 2, 2.0]),
+          form=st.sampled_from(["tuple", "list"]))
+    def typed_pairs_query(self, i, name, val, form):
+        # equal-by-value numbers of different types in the sequence-of-pairs forms (a tuple argument is hashable: a cache keyed on it must be typed)
+        self.s.step(["mod", i, [name + "_" + form, [["page", val]]]])
+
     @rule(i=st.integers(0, 7), name=st.sampled_from(["update_query", "extend_query", "with_query"]),
           pairs=st.lists(st.tuples(st.sampled_from(["a", "b", "k", "a b"]), st.sampled_from(["1", "x y", "%41", ""])).map(list), min_size=1, max_size=2))
     def query_pairs(self, i, name, pairs):
         # the sequence-of-pairs form, repeatedly on the same few URLs (their memoised parsed query must not be touched)
         self.s.step(["mod", i % 3, [name, pairs]])
+
+    @rule(i=st.integers(0, 7), name=st.sampled_from(["with_query", "update_query", "extend_query", "build", "__mod__"]),
+          form=st.sampled_from(["dict", "list", "multidict", "cimultidict", "proxy", "dict-listvalue"]),
+          pairs=st.lists(st.tuples(st.sampled_from(["a", "b", "k"]), st.sampled_from(["1", "x y", "v"])).map(list), min_size=1, max_size=3), how=st.sampled_from(["set", "clear"]))
+    def alias(self, i, name, form, pairs, how):
+        self.s.step(["alias", i, name, form, pairs, how])
 
     @rule(i=st.integers(0, 7), name=st.sampled_from(sorted(SELF)))
     def selfmod(self, i, name):
